@@ -236,6 +236,32 @@ def module_lift_general(u):
     return {"prog.incn": entry, "semlib.incn": lib + "\n"}
 
 
+def module_lift_chain(u):
+    """Three files: the unit's type declarations (models, classes, enums, traits, newtypes, consts) in semtypes.incn, its
+    functions in semlib.incn (which imports every type), the entry file imports both and keeps the driver. None if the unit
+    has no function or no type declaration."""
+    blocks, cur = [], []
+    for line in u.decls.split("\n"):
+        if re.match(r"^(def|async def|model|class|enum|trait|type|const|@) ?", line) and cur and not cur[-1].startswith("@") and "".join(cur).strip():
+            blocks.append("\n".join(cur).rstrip("\n"))
+            cur = []
+        cur.append(line)
+    if "".join(cur).strip():
+        blocks.append("\n".join(cur).rstrip("\n"))
+    kind_of = lambda b: next((m.group(1) for m in [re.search(r"^(def|async def|model|class|enum|trait|type|const) ", b, re.M)] if m), None)
+    funcs = [b for b in blocks if kind_of(b) in ("def", "async def")]
+    types = [b for b in blocks if kind_of(b) not in ("def", "async def", None)]
+    if not funcs or not types:
+        return None
+    pub = lambda b: re.sub(r"^(def|async def|model|class|enum|trait|type|const) ", r"pub \1 ", b, count=1, flags=re.M)
+    tnames = [m.group(2) for b in types for m in [_TOP_DECL.search(b)] if m]
+    fnames = [m.group(2) for b in funcs for m in [_TOP_DECL.search(b)] if m]
+    typelib = "\n\n\n".join(pub(b) for b in types) + "\n"
+    funclib = "from semtypes import " + ", ".join(tnames) + "\n\n\n" + "\n\n\n".join(pub(b) for b in funcs) + "\n"
+    entry = "from semlib import " + ", ".join(fnames) + "\nfrom semtypes import " + ", ".join(tnames) + "\n\n\ndef main() -> None:\n" + ind(f'println("@@{u.name}")\n' + u.driver) + "\n"
+    return {"prog.incn": entry, "semlib.incn": funclib, "semtypes.incn": typelib}
+
+
 def run_python(py):
     p = subprocess.run([sys.executable, "-c", py], capture_output=True, text=True, timeout=120)
     return p.returncode, p.stdout, p.stderr
@@ -729,6 +755,20 @@ def corpus(tier):
             "println(sm_use(4))\nprintln(SCounter.twice(5))\nprintln(SCounter(n=1).total())",
             py_decls="@dataclass\nclass SCounter:\n    n: int\n\n    @staticmethod\n    def zero():\n        return 0\n\n    @staticmethod\n    def twice(k):\n        return k * 2\n\n    def total(self):\n        return self.n + SCounter.twice(1)\n\n\ndef sm_use(a):\n    return SCounter.twice(a) + SCounter.zero()",
             tags=("class", "static-method", "static-call-inside-function-and-method"),
+        )
+    )
+    # functions that construct / match types declared elsewhere in the unit: defaults omitted, named arguments out of order,
+    # unit and data variants, methods - the placement lifts move the types and the functions into different modules
+    U.append(
+        Unit(
+            "construct_across",
+            'model XPoint:\n    x: int\n    y: int\n    z: int = 9\n\n\nenum XKind:\n    Flat\n    Tall(int)\n\n\nclass XRect:\n    w: int\n    h: int\n    label: str = "r"\n\n    def area(self) -> int:\n        return self.w * self.h\n\n\n'
+            "def xc_shift(d: int) -> XPoint:\n    return XPoint(y=d + 1, x=d)\n\n\ndef xc_rect(a: int, b: int) -> XRect:\n    return XRect(h=b, w=a)\n\n\ndef xc_kind(r: XRect) -> XKind:\n    if r.h > r.w:\n        return XKind.Tall(r.h)\n    return XKind.Flat\n\n\n"
+            "def xc_show(k: XKind) -> int:\n    match k:\n        case XKind.Flat:\n            return 0\n        case XKind.Tall(h):\n            return h\n\n\ndef xc_total(r: XRect, p: XPoint) -> int:\n    return r.area() + p.x * 100 + p.y * 10 + p.z",
+            "println(xc_total(xc_rect(3, 2), xc_shift(1)))\nprintln(xc_show(xc_kind(xc_rect(2, 5))))\nprintln(xc_show(xc_kind(xc_rect(5, 2))))",
+            py_decls='@dataclass\nclass XPoint:\n    x: int\n    y: int\n    z: int = 9\n\n\nclass XKind:\n    pass\n\n\n@dataclass\nclass XRect:\n    w: int\n    h: int\n    label: str = "r"\n\n    def area(self):\n        return self.w * self.h\n\n\n'
+            "def xc_shift(d):\n    return XPoint(y=d + 1, x=d)\n\n\ndef xc_rect(a, b):\n    return XRect(h=b, w=a)\n\n\ndef xc_kind(r):\n    return (\"Tall\", r.h) if r.h > r.w else (\"Flat\",)\n\n\ndef xc_show(k):\n    return 0 if k[0] == \"Flat\" else k[1]\n\n\ndef xc_total(r, p):\n    return r.area() + p.x * 100 + p.y * 10 + p.z",
+            tags=("model", "class", "enum", "defaults-omitted", "named-args-out-of-order", "construct-in-function"),
         )
     )
     # ---- feature interactions: inheritance x traits (the member that satisfies the trait lives in an ancestor) -------------
